@@ -20,6 +20,31 @@ CHECKS = {
             "bounds; membership, order- and multiplicity-independence are asserted on every path. Holds for every k >= 0 within "
             "the value bounds; says nothing about values outside the grammar.",
             TRUST + "Values outside the grammar, self-referential containers and k < 0 are outside the claim.", "DESIGN.md#C04"),
+    "C05": (True, "model_checking",
+            "symbolic execution of get_type/shrink_types (CrossHair+z3) with a lock-step witness oracle, k symbolic, bounded tree exhausted",
+            "Same bounded-exhaustive symbolic exploration as C04 with the tightness oracle: every union alternative at every nesting "
+            "position must be exactly witnessed by observed values, class names exact, Any only for observed empty containers, TypedDict "
+            "required/optional keys justified by the observed dicts; for every k >= 0.",
+            TRUST + "Interpretation choices (generator objects, callables and Type[C] are atoms) are listed in the evidence assumptions.", "DESIGN.md#C05"),
+    "C06": (True, "model_checking",
+            "symbolic execution of inference/merge with k symbolic (CrossHair+z3); every type node walked for TypedDict size/shape",
+            "Bounded-exhaustive symbolic exploration with k an unconstrained solver integer: k == 0 => no TypedDict anywhere, k > 0 => at most "
+            "k keys, never empty, only for all-string-keyed dicts; checked on per-value types and the merged type (type level), and through "
+            "the store round trip and the rendered module stub (pipeline level).",
+            TRUST + "Dict sizes are bounded by the grammar of the tier.", "DESIGN.md#C06"),
+    "C02": (True, "model_checking",
+            "one inductive step of the real CallTracer from an arbitrary valid state, opcode/flags/event/values symbolic (CrossHair+z3); environment contract validated against the live interpreter",
+            "One symbolic transition of CallTracer.__call__ from an arbitrary invariant-satisfying tracer state covers call histories of any "
+            "length by induction; the last executed opcode is an unconstrained integer, so every opcode (not only those the tests happen to "
+            "produce) is classified; the post-state and the log are compared with a reference transition. Function attribution is checked on "
+            "frames recorded from the running interpreter.",
+            TRUST + "The model of which events CPython delivers is an environment contract, validated natively on every run (exit 2 if it "
+            "disagrees). Async generators, throw()/close() on suspended generators, C frames and threads are outside the claim.", "DESIGN.md#C02"),
+    "C18": (True, "model_checking",
+            "symbolic execution of CallTracer under a scripted random stub: rate and every draw are solver integers; event scripts exhausted",
+            "The sampling rate (None, 0, 1, every N >= 2) and each random draw are solver variables; for every event script of a generator-like "
+            "frame within the bound the logged traces are exactly those of the calls sampled at their first call event, undistorted, with no residue.",
+            TRUST + "random.randrange is a stub constrained only by its contract; uniformity is trusted for the statistical reading.", "DESIGN.md#C18"),
 }
 
 NOT_APPLICABLE = {
